@@ -7,7 +7,7 @@ pid, m = sys.argv[1], sys.argv[2]
 wave = os.environ.get("WAVE", "")          # WAVE=2 -> worktree /tmp/wt2-<ID>, id <ID>-w2<m>
 wt = f"/tmp/wt{wave}-{pid}"; src = f"{wt}/seeded_out/{m}"; dst = f"/verif/seeded/{pid}-{('w'+wave) if wave else ''}{m}"
 prop = pid
-if wave in ("3", "4", "5", "6", "7", "8", "9", "10", "11", "12", "13", "14", "15", "16", "17", "18", "19", "20", "21", "22"):
+if wave in ("3", "4", "5", "6", "7", "8", "9", "10", "11", "12", "13", "14", "15", "16", "17", "18", "19", "20", "21", "22", "23"):
     # round 3 is organised by source area (A..F); the property comes from argv[3] or the first Cxx named in notes.md
     import re
     dst = f"/verif/seeded/W{wave}{pid}-{m}"
